@@ -6,6 +6,14 @@ external c_fnmatch : string -> string -> bool -> bool = "c11_fnmatch"
 
 let rec pos_of_int i = if i = 1 then XH else if i land 1 = 1 then XI (pos_of_int (i lsr 1)) else XO (pos_of_int (i lsr 1))
 let n_of_int i = if i = 0 then N0 else Npos (pos_of_int i)
+(* device and inode numbers: unsigned 64 bit decimals (the inode-number shim hands out numbers >= 2^63) *)
+let rec pos_of_i64 (i : int64) =
+  if i = 1L then XH
+  else if Int64.logand i 1L = 1L then XI (pos_of_i64 (Int64.shift_right_logical i 1))
+  else XO (pos_of_i64 (Int64.shift_right_logical i 1))
+let n_of_u64 (s : string) =
+  let i = Int64.of_string ("0u" ^ s) in
+  if i = 0L then N0 else Npos (pos_of_i64 i)
 let rec int_of_pos = function XH -> 1 | XO p -> 2 * int_of_pos p | XI p -> 2 * int_of_pos p + 1
 let int_of_n = function N0 -> 0 | Npos p -> int_of_pos p
 let z_of_int i = if i = 0 then Z0 else if i > 0 then Zpos (pos_of_int i) else Zneg (pos_of_int (-i))
@@ -53,8 +61,8 @@ let parse_h w =
       hn = { nm = unhex name;
              st = { h_type = type_of_char t; h_perm = n_of_int (int_of_string ("0o" ^ perm));
                     h_uid = n_of_int (int_of_string uid); h_gid = n_of_int (int_of_string gid);
-                    h_mtime = z_of_int (int_of_string mtime); h_dev = n_of_int (int_of_string dev);
-                    h_ino = n_of_int (int_of_string ino); h_rdev = n_of_int (int_of_string rdev);
+                    h_mtime = z_of_int (int_of_string mtime); h_dev = n_of_u64 dev;
+                    h_ino = n_of_u64 ino; h_rdev = n_of_int (int_of_string rdev);
                     h_target = unhex tgt } } }
   | _ -> failwith "bad H line"
 
